@@ -530,7 +530,8 @@ impl RunState {
                 'string: for offset in 0..=u16::MAX {
                     let addr = self.reg(0).wrapping_add(offset);
                     let chr_raw = self.mem(addr);
-                    for chr in [chr_raw >> 8, chr_raw & 0xFF] {
+                    // Low byte is printed first
+                    for chr in [chr_raw & 0xFF, chr_raw >> 8] {
                         let chr_ascii = chr as u8 as char;
                         if chr_ascii == '\0' {
                             break 'string;
